@@ -119,21 +119,20 @@ impl<I: ObjectWrite> Stream<I> {
             Primitive::Null => Dictionary::new(),
             p => bail!("stream info has to be a dictionary (found {:?})", p)
         };
-        let mut params = None;
         if self.info.filters.len() > 0 {
+            // one entry per filter (null for a filter without parameters)
+            let mut params = Vec::with_capacity(self.info.filters.len());
             for f in self.info.filters.iter() {
-                if let Some(para) = match f {
-                    StreamFilter::LZWDecode(ref p) => Some(p.to_primitive(update)?),
-                    StreamFilter::FlateDecode(ref p) => Some(p.to_primitive(update)?),
-                    StreamFilter::DCTDecode(ref p) => Some(p.to_primitive(update)?),
-                    StreamFilter::CCITTFaxDecode(ref p) => Some(p.to_primitive(update)?),
-                    StreamFilter::JBIG2Decode(ref p) => Some(p.to_primitive(update)?),
-                    _ => None
-                } {
-                    assert!(params.is_none());
-                    params = Some(para);
-                }
+                params.push(match f {
+                    StreamFilter::LZWDecode(ref p) => p.to_primitive(update)?,
+                    StreamFilter::FlateDecode(ref p) => p.to_primitive(update)?,
+                    StreamFilter::DCTDecode(ref p) => p.to_primitive(update)?,
+                    StreamFilter::CCITTFaxDecode(ref p) => p.to_primitive(update)?,
+                    StreamFilter::JBIG2Decode(ref p) => p.to_primitive(update)?,
+                    _ => Primitive::Null
+                });
             }
+            let has_params = params.iter().any(|p| !matches!(p, Primitive::Null));
             let mut filters = self.info.filters.iter().map(|filter| match filter {
                 StreamFilter::ASCIIHexDecode => "ASCIIHexDecode",
                 StreamFilter::ASCII85Decode => "ASCII85Decode",
@@ -151,14 +150,17 @@ impl<I: ObjectWrite> Stream<I> {
                 0 => {},
                 1 => {
                     info.insert("Filter", filters.next().unwrap().to_primitive(update)?);
+                    if has_params {
+                        info.insert("DecodeParms", params.pop().unwrap());
+                    }
                 }
                 _ => {
                     info.insert("Filter", Primitive::array::<Primitive, _, _, _>(filters, update)?);
+                    if has_params {
+                        info.insert("DecodeParms", Primitive::Array(params));
+                    }
                 }
             }
-        }
-        if let Some(para) = params {
-            info.insert("DecodeParms", para);
         }
 
         let inner = match self.inner_data {
